@@ -505,10 +505,37 @@ def main():
             seenk.add(k["text"])
             lines_out.append(f"KNOWN-FINDING: property={prop} {k['text']}")
     import replay as rp
+    kani_cache = {}
+
+    def kani_for(fn_id):
+        # Verus gives no counterexample; for the scalar leaf functions a loop-free Kani harness over the same extracted
+        # text does (tools/kani_leaf.py). Run only when there is a violation in such a function.
+        if fn_id in kani_cache:
+            return kani_cache[fn_id]
+        res = None
+        try:
+            import kani_leaf as kl
+            if fn_id in kl.BY_FN:
+                kl.gen()
+                for h in kl.BY_FN[fn_id]:
+                    rr = kl.run(h, timeout=90)
+                    if rr["status"] == "failed":
+                        res = dict(harness=h, values=rr.get("values"), failed_checks=rr.get("failed_checks"), cmd=rr["cmd"],
+                                   bounded=kl.BOUNDED.get(h))
+                        try:
+                            res["replay"] = kl.replay_counterexample(h, rr.get("values") or [])
+                        except BaseException as e:
+                            res["replay_error"] = str(e)[-300:]
+                        break
+        except BaseException as e:
+            res = dict(error=str(e)[-300:])
+        kani_cache[fn_id] = res
+        return res
+
     if violations:
         for n, f in enumerate(violations):
             path = os.path.join(OUT, "replay", f"{prop}-{n}.json")
-            tail = rp.make_replay(prop, f, path, scen_fail)
+            tail = rp.make_replay(prop, f, path, scen_fail, kani_for(f.get("fn")))
             lines_out.append(f"VIOLATION property={prop} replay={path}" + (" " + tail if tail else ""))
         rc = 1
     elif scen_fail and (undecided or tier == "thorough" or always):
@@ -522,9 +549,46 @@ def main():
         lines_out.append(f"VIOLATION property={prop} replay={path}" + (" " + tail if tail else ""))
         violations = [f0]
         rc = 1
+    # thorough tier: the Kani twins of the scalar leaf functions this property owns, as a second, independent back end
+    kani_runs = []
+    if tier == "thorough":
+        try:
+            import kani_leaf as kl
+            owned_ids = {f["fn"] for f in fn_owned} | set(spec.get("fns", []))
+            hs = []
+            for fid, hl in kl.BY_FN.items():
+                if fid in owned_ids:
+                    hs += [h for h in hl if h not in hs]
+            if hs:
+                kl.gen()
+                for h in hs:
+                    rr = kl.run(h, timeout=180)
+                    rr["coverage"] = "bounded: " + kl.BOUNDED[h] if h in kl.BOUNDED else "complete (loop-free, full-domain symbolic inputs)"
+                    if rr["status"] == "failed":
+                        try:
+                            rr["replay"] = kl.replay_counterexample(h, rr.get("values") or [])
+                        except BaseException as e:
+                            rr["replay_error"] = str(e)[-300:]
+                    kani_runs.append(rr)
+                for rr in kani_runs:
+                    if rr["status"] == "failed" and rr.get("replay", {}).get("confirmed_on_real_code") and not violations:
+                        # the second back end found a concrete input on which the real crate contradicts the statement
+                        f0 = dict(unit="kani_leaf", fn=None, kind="kani-counterexample", tags=[], clause=rr["harness"], repo_loc=None,
+                                  highlight=None, message="Kani harness " + rr["harness"] + " failed: " + "; ".join(rr.get("failed_checks", [])),
+                                  rendered="")
+                        path = os.path.join(OUT, "replay", f"{prop}-kani.json")
+                        rp.make_replay(prop, f0, path, None, dict(harness=rr["harness"], values=rr.get("values"), cmd=rr["cmd"], replay=rr["replay"]))
+                        lines_out.append(f"VIOLATION property={prop} replay={path}")
+                        violations.append(f0)
+                        rc = 1
+        except BaseException as e:
+            kani_runs.append(dict(error=str(e)[-300:]))
     # evidence
     tb = ["Verus 0.2026.09.13 + bundled Z3 (A-verus); vstd specifications of std taken as given"]
     tb += trusted_lines(units)
+    if kani_runs or any(kani_cache.values()):
+        tb.append("A-kani: Kani 0.68 / CBMC 6.11 on the leaf functions extracted by tools/kani_leaf.py (second back end in the thorough tier; "
+                  "counterexample source for violations in BinOp::eval, UnaryOp::eval, bit_mask, ExpectedValue::check)")
     norm_total = {}
     assum_total = {}
     for r in results:
@@ -542,6 +606,7 @@ def main():
                 for f in fn_owned[:4]]
     ev = dict(
         stability=[dict(unit=r["unit"], **r["stability"]) for r in results if r.get("stability")],
+        kani=kani_runs,
         property_id=prop, tier=tier, seed=seed, level="proof" if not undecided else "other",
         coverage=dict(
             obligations=n_obl, discharged=n_obl - n_failed,
